@@ -199,6 +199,10 @@ impl<'r> Gen<'r> {
                 _ => {
                     if self.r.chance(1, 2) {
                         it.core_type().core().function(vec![we::ValType::I32], vec![]);
+                    } else if self.r.chance(1, 4) {
+                        // an explicit core rec group (D29: convert_instance_type re-encodes its members one by one)
+                        let n = 1 + self.r.below(2);
+                        it.core_type().core().rec((0..n).map(|i| rec_member(i as usize)).collect::<Vec<_>>());
                     } else {
                         let n = self.name("r");
                         it.export(&n, ComponentTypeRef::Type(TypeBounds::SubResource));
@@ -228,9 +232,21 @@ impl<'r> Gen<'r> {
                     }
                 }
                 4 => {
-                    let (it, ex) = self.instance_type();
-                    ct.ty().instance(&it);
-                    local.push(Ty::Inst(ex));
+                    if self.r.chance(2, 3) {
+                        let (it, ex) = self.instance_type();
+                        ct.ty().instance(&it);
+                        local.push(Ty::Inst(ex));
+                    } else if self.r.chance(1, 2) {
+                        // explicit rec group directly in a component type: preserved when the component type is a
+                        // section item, flattened when the component type is itself nested
+                        ct.core_type().core().rec(vec![rec_member(0), rec_member(1)]);
+                    } else {
+                        let mut inner = we::ComponentType::new();
+                        inner.core_type().core().rec(vec![rec_member(1)]);
+                        if self.r.chance(1, 2) { inner.ty().defined_type().stream(None); self.stream_future_nested = true; }
+                        ct.ty().component(&inner);
+                        local.push(Ty::CompOther);
+                    }
                 }
                 _ => {
                     let n = self.name("q");
@@ -535,6 +551,11 @@ impl<'r> Gen<'r> {
     }
 }
 
+fn rec_member(i: usize) -> we::SubType {
+    let ft = if i % 2 == 0 { we::FuncType::new(vec![], vec![]) } else { we::FuncType::new(vec![we::ValType::I32], vec![we::ValType::I64]) };
+    we::SubType { is_final: true, supertype_idx: None, composite_type: we::CompositeType { inner: we::CompositeInnerType::Func(ft), shared: false } }
+}
+
 fn component_has_imports(bytes: &[u8]) -> bool {
     let mut open = 0;
     for p in wasmparser::Parser::new(0).parse_all(bytes) {
@@ -591,4 +612,37 @@ pub fn witnesses() -> Vec<(String, String)> {
         ("toplevel payload-less stream is preserved".into(),
          "(component (type (stream)) (type (future)))".into()),
     ]
+}
+
+/// witnesses that the text format cannot express conveniently, built with wasm-encoder
+pub fn witnesses_bytes() -> Vec<(String, Vec<u8>)> {
+    let st = |ft: we::FuncType| we::SubType { is_final: true, supertype_idx: None, composite_type: we::CompositeType { inner: we::CompositeInnerType::Func(ft), shared: false } };
+    let mut v = vec![];
+    // explicit core rec group inside an instance type declaration (wrappers.rs re-encodes the members one by one)
+    {
+        let mut it = we::InstanceType::new();
+        it.core_type().core().rec(vec![st(we::FuncType::new(vec![], vec![])), st(we::FuncType::new(vec![we::ValType::I32], vec![]))]);
+        let mut sec = we::ComponentTypeSection::new();
+        sec.instance(&it);
+        let mut c = we::Component::new();
+        c.section(&sec);
+        v.push(("explicit core rec group inside an instance type declaration".to_string(), c.finish()));
+    }
+    {
+        let mut ct = we::ComponentType::new();
+        ct.core_type().core().rec(vec![st(we::FuncType::new(vec![], vec![])), st(we::FuncType::new(vec![we::ValType::I32], vec![]))]);
+        let mut sec = we::ComponentTypeSection::new();
+        sec.component(&ct);
+        let mut c = we::Component::new();
+        c.section(&sec);
+        v.push(("explicit core rec group inside a component type declaration".to_string(), c.finish()));
+    }
+    {
+        let mut sec = we::CoreTypeSection::new();
+        sec.ty().core().rec(vec![st(we::FuncType::new(vec![], vec![])), st(we::FuncType::new(vec![we::ValType::I32], vec![]))]);
+        let mut c = we::Component::new();
+        c.section(&sec);
+        v.push(("explicit core rec group in a core type section".to_string(), c.finish()));
+    }
+    v
 }
